@@ -338,7 +338,7 @@ func check(c Case, st *rig.Stats) error {
 }
 
 var stats = rig.NewStats("C16",
-	"rapid draws a subject (Router; Group whose router is made by Group.New, with the recovery option given to NewGroup, only to Group.New, or to both with different functions (the router's must win); Group with an Added router carrying its own option), a recovery mode (none, WithRecovery(f), WithStatusRecovery, WithWriteRecovery / WithLogRecovery / WithSLogRecovery with a discarding sink), WithTrace on/off, Use before or after the registrations, for group subjects optionally a sibling router made by Group.New with a recovery function of its own before or after the subject (that function must never run), and 1-8 requests (eight methods x live, parameterised, unknown, '*', '' and group-unmatched paths) of which about 60% carry a fault: panic in the base handler (route, HEAD, OPTIONS, 405, 404, TRACE, group not-found) or in middleware layer m0 / m1 (Use) / m5 (route) / mg (Group.Use), before or after next, with a string, error, int, pointer or http.ErrAbortHandler value; a quarter of the requests are served by a handler that itself issues a nested request to the same subject (so two request contexts are alive at once). A fault-free twin built identically gives the normal outcome. Oracle: with recovery nothing escapes ServeHTTP, f runs exactly once with the identical value (== / same pointer), WithStatusRecovery answers its status; without recovery the identical value reaches the caller; requests whose fault point is not on their path, and all later requests, are served exactly like the twin (handler, route, parameters as seen before and after the handler ran, status, middlewares, and the same for the nested request). Non-trivial: a fault fired outside a plain route handler (middleware layer or generated handler); distinct by hash of the case",
+	"rapid draws a subject (Router; Group whose router is made by Group.New, with the recovery option given to NewGroup, only to Group.New, or to both with different functions (the router's must win); Group with an Added router carrying its own option), a recovery mode (none, WithRecovery(f), WithStatusRecovery, WithWriteRecovery / WithLogRecovery / WithSLogRecovery with a discarding sink), WithTrace on/off, Use before or after the registrations, for group subjects optionally a sibling router made by Group.New with a recovery function of its own before or after the subject (that function must never run), and 1-8 requests (eight methods x live, parameterised, unknown, '*', '' and group-unmatched paths) of which about 60% carry a fault: panic in the base handler (route, HEAD, OPTIONS, 405, 404, TRACE, group not-found) or in middleware layer m0 / m1 (Use) / m5 (route) / mg (Group.Use), before or after next, with a string, error, int, pointer or http.ErrAbortHandler value; a quarter of the requests are served by a handler that itself issues a nested request to the same subject (so two request contexts are alive at once). A fault-free twin built identically gives the normal outcome. Oracle: with recovery nothing escapes ServeHTTP, f runs exactly once with the identical value (== / same pointer), WithStatusRecovery answers its status; without recovery the identical value reaches the caller; requests whose fault point is not on their path, and all later requests, are served exactly like the twin (handler, route, parameters as seen before and after the handler ran, status, middlewares, and the same for the nested request). Non-trivial: a fault fired outside a plain route handler (middleware layer or generated handler); distinct by hash of the case. Later additions to the generated domain: A third of the requests carry the context values net/http's server provides (http.ServerContextKey); request paths include a 5000-byte parameter value and a 70000-byte unknown path. A quarter of the subjects have a CORS allow-list and their OPTIONS requests are preflights whose header list has empty or blank elements.",
 	"Added routers carry the same recovery option as their group (a group only promises recovery for routers it created and for its own not-found handler)")
 
 type rigMW = types.Middleware[*rig.H]
